@@ -821,6 +821,88 @@ def work_far_feature(chunk):
     return acc
 
 
+# -- forms of the user callable -----------------------------------------------------------------------------
+# the function may be any callable: a functools.partial, a bound method, an object with __call__ whose own attributes
+# happen to be named like attributes of the derivative objects (fun, n, order, method, step, full_output, ...), another
+# derivative object (Jacobian of a Gradient is the Hessian).  Closed-form Jacobians of an affine / a quadratic map.
+
+CALL_A = np.array([[1.0, -2.0, 3.0], [0.5, 4.0, -1.5]])
+CALL_Q = np.array([[2.0, 0.5, -1.0], [0.5, 3.0, 0.25], [-1.0, 0.25, 1.5]])
+CALL_X = np.array([0.3, -0.7, 1.1])
+CALLABLE_FORMS = ['partial', 'bound-method', 'object-with-library-named-attributes', 'gradient-object']
+
+
+class _Scaled(object):
+    """callable object: 3 * g, keeping g and some settings in attributes of its own"""
+
+    def __init__(self, g):
+        self.fun = g                    # names chosen like the library's own instance attributes
+        self.n, self.order, self.method, self.step = 7, 9, 'backward', 1e3
+        self.full_output, self.richardson_terms, self.fd_rule, self._step, self._derivative = True, 0, None, None, None
+
+    def __call__(self, x):
+        return 3.0 * self.fun(x)
+
+
+class _Model(object):
+    def __init__(self, A):
+        self.A = A
+
+    def affine(self, x):
+        return np.dot(self.A, x)
+
+
+def _callable_of(form):
+    """(callable, exact Jacobian at CALL_X, description)"""
+    import functools
+    import numdifftools as nd
+    if form == 'partial':
+        def g(scale, x):
+            return scale * np.dot(CALL_A, x)
+        return functools.partial(g, 2.0), 2.0 * CALL_A, 'functools.partial(lambda scale, x: scale * A x, 2.0)'
+    if form == 'bound-method':
+        return _Model(CALL_A).affine, CALL_A, 'bound method of an object holding A'
+    if form == 'object-with-library-named-attributes':
+        return _Scaled(lambda x: np.dot(CALL_A, x)), 3.0 * CALL_A, 'callable object 3 * self.fun(x) with attributes fun, n, order, method, step, ...'
+    if form == 'gradient-object':
+        return nd.Gradient(lambda x: 0.5 * np.dot(x, np.dot(CALL_Q, x))), CALL_Q, 'nd.Gradient of x.Qx/2 (its Jacobian is Q)'
+    raise KeyError(form)
+
+
+def work_callables(chunk):
+    import numdifftools as nd
+    acc = fw.Acc()
+    for form, method, order in chunk:
+        fun, want, text = _callable_of(form)
+        tol = 1e-8 if form != 'gradient-object' else (1e-6 if method in ('central', 'complex', 'multicomplex') else 1e-3)
+        entries = [('Jacobian', fun, want)]
+        if form != 'gradient-object':
+            entries.append(('Gradient', (lambda f_: (lambda x: f_(x)[0]))(fun) if form != 'object-with-library-named-attributes' else None, want[0]))
+        for cls, f_, w_ in entries:
+            if f_ is None:
+                # the scalar companion of the callable object: the same class, returning its first component
+                obj = _Scaled(lambda x: np.dot(CALL_A, x)[0])
+                f_, w_ = obj, 3.0 * CALL_A[0]
+            if form == 'gradient-object' and method == 'multicomplex':
+                continue          # a real-step object cannot be fed bicomplex arguments
+            status, val = call(lambda: getattr(nd, cls)(f_, method=method, order=order)(CALL_X))
+            case = ('callable', form, method, order, cls)
+            jc = dict(part='callable', form=form, method=method, order=order, cls=cls)
+            if status != 'ok':
+                acc.case(case, nontrivial=True, cell='callable/%s' % form, outcome=status)
+                acc.violation('C03:%s:%s:callable-%s' % (cls, status, form), jc, '%s of %s: %s' % (cls, text, val), 1)
+                continue
+            val = np.asarray(val)
+            err = float(np.max(np.abs(val - w_))) if val.shape == np.shape(w_) else float('inf')
+            ok = err <= tol * (1.0 + float(np.max(np.abs(w_))))
+            acc.case(case, nontrivial=True, cell='callable/%s' % form, outcome=ok)
+            if not ok:
+                acc.violation('C03:%s:%s:callable-%s' % (cls, 'shape' if val.shape != np.shape(w_) else 'envelope', form), jc,
+                              '%s(f, method=%r, order=%d)(%r) with f = %s: got %r, exact %r' % (cls, method, order, CALL_X.tolist(), text,
+                                                                                              val.tolist(), np.asarray(w_).tolist()), 1)
+    return acc
+
+
 # -- functions with a limited domain ---------------------------------------------------------------------
 # f is differentiable at x but only defined on part of R^n (log, sqrt): the largest default steps leave the domain
 # in one direction, so SOME rows of SOME entries are NaN.  Those entries must still be resolved from their valid rows,
@@ -890,7 +972,8 @@ def required_cells(tier):
     req += ['ridge/g=%s' % g for g in ridge.FUNS] + ['ridge/h=%s' % g for g in ridge.FUNS]
     req += ['grad/form=%s' % f for f in GRAD_FORMS] + ['grad/size1', 'grad/size>1']
     req += ['grad/method=%s/order=%d' % (me, o) for me in METHODS for o in ORDERS]
-    req += ['outputs/readonly', 'outputs/memo'] + ['far-feature/%s' % me for me in ('central', 'forward', 'backward')]
+    req += ['outputs/readonly', 'outputs/memo'] + ['far-feature/%s' % me for me in ('central', 'forward', 'backward')] + \
+        ['callable/%s' % f for f in CALLABLE_FORMS]
     req += ['select/map=%s' % mname for mname in SELECT_MAPS] + ['jac/step_ratio=%r' % r for r in RATIOS]
     req += ['dd/v=%s' % v for v in V_KINDS] + ['dd/vform=%s' % f for f in V_FORMS]
     req += ['dd/method=%s/order=%d' % (me, o) for me in METHODS for o in ORDERS]
@@ -907,6 +990,7 @@ def run(ctx):
                                       for c in ('zero-entry', 'ordinary')], chunk=3))
     acc.merge(ctx.pmap(work_far_feature, [(me, o, k, j) for me in ('central', 'forward', 'backward') for o in ORDERS
                                           for k in range(1, 13) for j in range(3)], chunk=6))
+    acc.merge(ctx.pmap(work_callables, [(f, me, o) for f in CALLABLE_FORMS for me in METHODS for o in ORDERS], chunk=3))
     acc.merge(ctx.pmap(work_partial_domain, [(x0, me, o) for x0 in (0.05, 0.3) for me in ('central', 'backward') for o in ORDERS], chunk=2))
     acc.merge(ctx.pmap(work_outputs, [(c, m, o) for c in ('Jacobian', 'Gradient') for m in METHODS for o in ORDERS], chunk=2))
     acc.merge(ctx.pmap(work_select, [(mname, p) for mname in SELECT_MAPS for p in ridge.POINT_KINDS], chunk=1, tier=ctx.tier))
@@ -972,6 +1056,10 @@ def replay(case):
         return not bad, '%r -> %s' % (case, bad or 'resolved')
     if case.get('part') == 'far-feature':
         a = work_far_feature([(case['method'], int(case['order']), int(case['k']), int(case['j']))])
+        bad = [r['detail'] for k, (n, recs) in a.viol.items() for r in recs if r['case'].get('cls') == case.get('cls')]
+        return not bad, '%r -> %s' % (case, bad or 'exact')
+    if case.get('part') == 'callable':
+        a = work_callables([(case['form'], case['method'], int(case['order']))])
         bad = [r['detail'] for k, (n, recs) in a.viol.items() for r in recs if r['case'].get('cls') == case.get('cls')]
         return not bad, '%r -> %s' % (case, bad or 'exact')
     if case.get('part') == 'aliased':
